@@ -64,6 +64,7 @@ type Exec struct {
 	implLocal    map[string]types.Type
 	pushed       bool
 	curLoop      *loopInfo
+	ghostTypes   map[string]types.Type
 }
 
 type pathAbort struct{ reason string }
@@ -109,17 +110,18 @@ func (x *Exec) Assert(st *State, o *Oblig, goal Term) {
 		return
 	}
 	o.VCs = append(o.VCs, &VC{Assumes: st.assume.slice(), Goal: goal, Path: strings.Join(st.path, ";")})
-	st.Restrict(goal)
+	if goal.S != "false" {
+		st.Restrict(goal)
+	}
 }
 
 // Cover records a satisfiability check of the current path condition.
 func (x *Exec) Cover(st *State, name string, pos token.Pos) {
-	if x.covers[name] {
-		return
-	}
-	x.covers[name] = true
 	o := x.oblig("cover["+name+"]", "cover", nil, pos)
 	o.Expect = "sat"
+	if len(o.VCs) >= 6 {
+		return
+	}
 	o.VCs = append(o.VCs, &VC{Assumes: st.assume.slice(), Goal: False, Path: strings.Join(st.path, ";")})
 }
 
@@ -142,6 +144,12 @@ func (x *Exec) keySort(key string) (string, bool) {
 		reg(x)
 		s, ok := x.heapSorts[key]
 		return s, ok
+	}
+	if strings.HasPrefix(key, "G!") {
+		if gs, ok := x.CS.GhostHeaps[key[2:]]; ok {
+			x.heapSorts[key] = gs
+			return gs, true
+		}
 	}
 	return "", false
 }
@@ -703,7 +711,12 @@ func (x *Exec) computeLoopMods(li *loopInfo) {
 			for _, h := range x.hooksAt[in] {
 				for _, a := range h.Actions {
 					if a.Kind == "set" {
-						ghosts[a.Var] = true
+						if _, isHeap := x.CS.GhostHeaps[a.Var]; isHeap {
+							x.regHeap("G!"+a.Var, x.CS.GhostHeaps[a.Var])
+							keys["G!"+a.Var] = true
+						} else {
+							ghosts[a.Var] = true
+						}
 					}
 				}
 			}
@@ -759,7 +772,23 @@ func (x *Exec) eventTexts(in ssa.Instruction) map[string]string {
 			}
 			return out
 		}
+		if b, ok := i.Call.Value.(*ssa.Builtin); ok && b.Name() == "delete" {
+			if n := fieldOfLoaded(i.Call.Args[0]); n != "" {
+				out["delete"] = n
+			} else {
+				out["delete"] = "?"
+			}
+			return out
+		}
 		out["call"] = f
+		_, whole := x.P.CallText(i.Pos())
+		out["callfull"] = whole
+	case *ssa.MapUpdate:
+		if n := fieldOfLoaded(i.Map); n != "" {
+			out["mapupdate"] = n
+		} else {
+			out["mapupdate"] = i.Map.Name()
+		}
 	case *ssa.Go:
 		f, _ := x.P.CallText(i.Pos())
 		if f == "" {
@@ -865,10 +894,23 @@ func (x *Exec) mapHooks() {
 					if txt, ok := evs[h.Kind]; ok && anchorMatch(h.Anchor, txt) {
 						x.hooksAt[in] = append(x.hooksAt[in], h)
 						h.Used++
+					} else if h.Kind == "call" {
+						if whole, ok := evs["callfull"]; ok && strings.HasSuffix(h.Anchor, "*") && anchorMatch(h.Anchor, whole) {
+							x.hooksAt[in] = append(x.hooksAt[in], h)
+							h.Used++
+						}
 					}
 				}
 			}
 		}
 	}
 	walk(x.fn)
+	var anon func(fn *ssa.Function)
+	anon = func(fn *ssa.Function) {
+		for _, a := range fn.AnonFuncs {
+			walk(a)
+			anon(a)
+		}
+	}
+	anon(x.fn)
 }
